@@ -40,7 +40,14 @@ fn cpu_seconds_of(pid: u32) -> Option<f64> {
 /// Some(true) = the child does not return either (confirmed), Some(false) = it returned, None = could not run it.
 fn confirm_in_child(prop: &str, file: &Path, budget_cpu_s: f64) -> Option<bool> {
     let exe = std::env::current_exe().ok()?;
-    let mut child = std::process::Command::new(exe).arg("replay").arg(prop).arg(file).stdout(std::process::Stdio::null()).stderr(std::process::Stdio::null()).spawn().ok()?;
+    let mut child = std::process::Command::new(exe)
+        .arg("replay")
+        .arg(prop)
+        .arg(file)
+        .stdout(std::process::Stdio::null())
+        .stderr(std::process::Stdio::null())
+        .spawn()
+        .ok()?;
     let started = Instant::now();
     loop {
         std::thread::sleep(std::time::Duration::from_millis(200));
@@ -62,11 +69,16 @@ fn confirm_in_child(prop: &str, file: &Path, budget_cpu_s: f64) -> Option<bool> 
 }
 
 fn process_cpu_seconds() -> f64 {
-    let Ok(s) = std::fs::read_to_string("/proc/self/stat") else { return 0.0 };
+    let Ok(s) = std::fs::read_to_string("/proc/self/stat") else {
+        return 0.0;
+    };
     // fields 14 and 15 (utime, stime) counted behind the closing parenthesis of the command name
-    let Some(rest) = s.rsplit(')').next() else { return 0.0 };
+    let Some(rest) = s.rsplit(')').next() else {
+        return 0.0;
+    };
     let f: Vec<&str> = rest.split_whitespace().collect();
-    let ticks: f64 = f.get(11).and_then(|x| x.parse::<f64>().ok()).unwrap_or(0.0) + f.get(12).and_then(|x| x.parse::<f64>().ok()).unwrap_or(0.0);
+    let ticks: f64 = f.get(11).and_then(|x| x.parse::<f64>().ok()).unwrap_or(0.0)
+        + f.get(12).and_then(|x| x.parse::<f64>().ok()).unwrap_or(0.0);
     ticks / 100.0
 }
 
@@ -95,7 +107,9 @@ pub fn spawn_watchdog(prop: String) {
                 // name the cases the stuck workers are in and re-judge each in a child process under a CPU budget
                 let root = match std::env::var("DLTVERIF_OUT") {
                     Ok(d) if !d.is_empty() => PathBuf::from(d),
-                    _ => std::env::var("DLTVERIF_ROOT").map(PathBuf::from).unwrap_or_else(|_| PathBuf::from(".")),
+                    _ => std::env::var("DLTVERIF_ROOT")
+                        .map(PathBuf::from)
+                        .unwrap_or_else(|_| PathBuf::from(".")),
                 };
                 let mut confirmed = vec![];
                 for slot in SLOTS.iter() {
@@ -112,7 +126,11 @@ pub fn spawn_watchdog(prop: String) {
                     let text = serde_json::to_string_pretty(&body).unwrap_or_default();
                     let dir = root.join("replays");
                     let _ = std::fs::create_dir_all(&dir);
-                    let path = dir.join(format!("{}-does-not-return-{:016x}.json", prop, hash_str(&text)));
+                    let path = dir.join(format!(
+                        "{}-does-not-return-{:016x}.json",
+                        prop,
+                        hash_str(&text)
+                    ));
                     if std::fs::write(&path, text).is_err() {
                         continue;
                     }
@@ -205,7 +223,11 @@ pub fn load_known(root: &Path) -> Vec<Known> {
                     text.push(tok);
                 }
                 if !prop.is_empty() && !sig.is_empty() {
-                    out.push(Known { property: prop, signature: sig, text: text.join(" ") });
+                    out.push(Known {
+                        property: prop,
+                        signature: sig,
+                        text: text.join(" "),
+                    });
                 }
             }
         }
@@ -261,8 +283,14 @@ pub struct BlockReport {
 
 impl Run {
     pub fn new(root: &Path, prop: &str, tier: Tier, seed: u64, level: &'static str) -> Self {
-        let known = load_known(root).into_iter().filter(|k| k.property == prop).collect();
-        let scale = std::env::var("DLTVERIF_SCALE").ok().and_then(|s| s.parse::<f64>().ok()).unwrap_or(1.0);
+        let known = load_known(root)
+            .into_iter()
+            .filter(|k| k.property == prop)
+            .collect();
+        let scale = std::env::var("DLTVERIF_SCALE")
+            .ok()
+            .and_then(|s| s.parse::<f64>().ok())
+            .unwrap_or(1.0);
         Run {
             root: root.to_path_buf(),
             prop: prop.to_string(),
@@ -342,16 +370,36 @@ impl Run {
             "violation": v.msg, "seed": self.seed, "tier": self.tier.name(), "case": case,
         });
         let text = serde_json::to_string_pretty(&body).unwrap();
-        let safe: String = section.chars().map(|c| if c.is_ascii_alphanumeric() || c == '-' || c == '_' { c } else { '-' }).collect();
-        let path = dir.join(format!("{}-{}-{:016x}.json", self.prop, safe, hash_str(&text)));
+        let safe: String = section
+            .chars()
+            .map(|c| {
+                if c.is_ascii_alphanumeric() || c == '-' || c == '_' {
+                    c
+                } else {
+                    '-'
+                }
+            })
+            .collect();
+        let path = dir.join(format!(
+            "{}-{}-{:016x}.json",
+            self.prop,
+            safe,
+            hash_str(&text)
+        ));
         let _ = std::fs::write(&path, text);
         let p = path.to_string_lossy().to_string();
-        self.violations.lock().unwrap().push((p.clone(), v.msg.clone()));
+        self.violations
+            .lock()
+            .unwrap()
+            .push((p.clone(), v.msg.clone()));
         p
     }
     /// Record a violation whose replay already exists (a committed regression file).
     pub fn report_existing(&self, path: &Path, v: &Violation) {
-        self.violations.lock().unwrap().push((path.to_string_lossy().to_string(), v.msg.clone()));
+        self.violations
+            .lock()
+            .unwrap()
+            .push((path.to_string_lossy().to_string(), v.msg.clone()));
     }
 
     /// Seeded random search with shrinking over `strat`, split over a fixed number of workers.
@@ -374,11 +422,18 @@ impl Run {
         let sec_nt = AtomicU64::new(0);
         std::thread::scope(|sc| {
             for w in 0..WORKERS {
-                let (stop, fails, strat, check, sec_evals, sec_nt) = (&stop, &fails, &strat, &check, &sec_evals, &sec_nt);
+                let (stop, fails, strat, check, sec_evals, sec_nt) =
+                    (&stop, &fails, &strat, &check, &sec_evals, &sec_nt);
                 let section_arc = section_arc.clone();
                 sc.spawn(move || {
                     crate::util::install_panic_hook();
-                    let wseed = splitmix64(self.seed ^ splitmix64(hash_str(&format!("{}/{}", self.prop, section)).wrapping_add(w as u64)));
+                    let wseed = splitmix64(
+                        self.seed
+                            ^ splitmix64(
+                                hash_str(&format!("{}/{}", self.prop, section))
+                                    .wrapping_add(w as u64),
+                            ),
+                    );
                     let mut cfg = Config::default();
                     cfg.cases = per_worker as u32;
                     cfg.failure_persistence = None;
@@ -390,7 +445,8 @@ impl Run {
                     let failed = Cell::new(false);
                     let evals = Cell::new(0u64);
                     let subs = Cell::new(0u64);
-                    let local_classes: RefCell<BTreeMap<&'static str, u64>> = RefCell::new(BTreeMap::new());
+                    let local_classes: RefCell<BTreeMap<&'static str, u64>> =
+                        RefCell::new(BTreeMap::new());
                     let local_nt: RefCell<HashSet<u64>> = RefCell::new(HashSet::new());
                     let local_samples: RefCell<Vec<Value>> = RefCell::new(vec![]);
                     let res = runner.run(&strat(), |case: C| {
@@ -415,7 +471,13 @@ impl Run {
                         evals.set(evals.get() + 1);
                         {
                             let kept = case.clone();
-                            *SLOTS[w].lock().unwrap() = Some(Slot { since: Instant::now(), section: section_arc.clone(), make: Box::new(move || serde_json::to_value(&kept).unwrap_or(Value::Null)) });
+                            *SLOTS[w].lock().unwrap() = Some(Slot {
+                                since: Instant::now(),
+                                section: section_arc.clone(),
+                                make: Box::new(move || {
+                                    serde_json::to_value(&kept).unwrap_or(Value::Null)
+                                }),
+                            });
                         }
                         let verdict = check(&case);
                         *SLOTS[w].lock().unwrap() = None;
@@ -430,7 +492,9 @@ impl Run {
                                 if pass.nontrivial {
                                     local_nt.borrow_mut().insert(hash_of(&case));
                                     if w == 0 && local_samples.borrow().len() < 2 {
-                                        local_samples.borrow_mut().push(sample_json(section, &case, &pass));
+                                        local_samples
+                                            .borrow_mut()
+                                            .push(sample_json(section, &case, &pass));
                                     }
                                 }
                                 Ok(())
@@ -461,12 +525,20 @@ impl Run {
                             g.insert(h ^ salt);
                         }
                     }
-                    self.samples.lock().unwrap().extend(local_samples.into_inner());
+                    self.samples
+                        .lock()
+                        .unwrap()
+                        .extend(local_samples.into_inner());
                     match res {
                         Ok(()) => {}
-                        Err(TestError::Fail(_, minimal)) => fails.lock().unwrap().push((w, minimal)),
+                        Err(TestError::Fail(_, minimal)) => {
+                            fails.lock().unwrap().push((w, minimal))
+                        }
                         Err(TestError::Abort(why)) => {
-                            self.degenerate.lock().unwrap().push(format!("{}: proptest aborted: {}", section, why));
+                            self.degenerate
+                                .lock()
+                                .unwrap()
+                                .push(format!("{}: proptest aborted: {}", section, why));
                         }
                     }
                 });
@@ -477,20 +549,39 @@ impl Run {
         if let Some((_, minimal)) = fails.into_iter().next() {
             let v = match check(&minimal) {
                 Err(v) => v,
-                Ok(_) => Violation::new("flaky", "shrunk case passed on re-evaluation (non-deterministic oracle?)"),
+                Ok(_) => Violation::new(
+                    "flaky",
+                    "shrunk case passed on re-evaluation (non-deterministic oracle?)",
+                ),
             };
-            let path = self.report_violation(section, serde_json::to_value(&minimal).unwrap_or(Value::Null), &v);
-            eprintln!("[{}] {}: violation: {}\n  replay: {}", self.prop, section, v.msg, path);
+            let path = self.report_violation(
+                section,
+                serde_json::to_value(&minimal).unwrap_or(Value::Null),
+                &v,
+            );
+            eprintln!(
+                "[{}] {}: violation: {}\n  replay: {}",
+                self.prop, section, v.msg, path
+            );
         }
         let e = sec_evals.load(Ordering::Relaxed);
         let n = sec_nt.load(Ordering::Relaxed);
         if !self.has_violation() && e >= 200 && (n as f64) < floor * e as f64 {
             self.degenerate.lock().unwrap().push(format!(
-                "{}: only {} of {} cases non-trivial (floor {:.0}%)", section, n, e, floor * 100.0
+                "{}: only {} of {} cases non-trivial (floor {:.0}%)",
+                section,
+                n,
+                e,
+                floor * 100.0
             ));
         }
         self.all_exhaustive.store(false, Ordering::Relaxed);
-        self.sections.lock().unwrap().push(SectionReport { name: section.to_string(), evaluations: e, nontrivial: n, exhaustive: false });
+        self.sections.lock().unwrap().push(SectionReport {
+            name: section.to_string(),
+            evaluations: e,
+            nontrivial: n,
+            exhaustive: false,
+        });
     }
 
     /// Bounded-exhaustive enumeration in fixed order: `blocks` blocks, distributed over the workers;
@@ -521,7 +612,11 @@ impl Run {
                         }
                         // (a block that never returns is named by its number; properties whose `replay` understands
                         // {"enum_block": n} get it re-judged in a child process by the watchdog)
-                        *SLOTS[w].lock().unwrap() = Some(Slot { since: Instant::now(), section: section_arc.clone(), make: Box::new(move || json!({"enum_block": b})) });
+                        *SLOTS[w].lock().unwrap() = Some(Slot {
+                            since: Instant::now(),
+                            section: section_arc.clone(),
+                            make: Box::new(move || json!({"enum_block": b})),
+                        });
                         let rep = f(b);
                         *SLOTS[w].lock().unwrap() = None;
                         HEARTBEAT.fetch_add(1, Ordering::Relaxed);
@@ -557,12 +652,20 @@ impl Run {
         fails.sort_by_key(|f| f.0);
         if let Some((_, case, v)) = fails.into_iter().next() {
             let path = self.report_violation(section, case, &v);
-            eprintln!("[{}] {}: violation: {}\n  replay: {}", self.prop, section, v.msg, path);
+            eprintln!(
+                "[{}] {}: violation: {}\n  replay: {}",
+                self.prop, section, v.msg, path
+            );
         }
         if !exhaustive {
             self.all_exhaustive.store(false, Ordering::Relaxed);
         }
-        self.sections.lock().unwrap().push(SectionReport { name: section.to_string(), evaluations: e, nontrivial: n, exhaustive });
+        self.sections.lock().unwrap().push(SectionReport {
+            name: section.to_string(),
+            evaluations: e,
+            nontrivial: n,
+            exhaustive,
+        });
     }
 
     /// Re-run the committed regression replays of this property (seconds-long replay tier).
@@ -583,8 +686,12 @@ impl Run {
             if !name.starts_with(&format!("{}-", self.prop)) || !name.ends_with(".json") {
                 continue;
             }
-            let Ok(text) = std::fs::read_to_string(&f) else { continue };
-            let Ok(body) = serde_json::from_str::<Value>(&text) else { continue };
+            let Ok(text) = std::fs::read_to_string(&f) else {
+                continue;
+            };
+            let Ok(body) = serde_json::from_str::<Value>(&text) else {
+                continue;
+            };
             let section = body["section"].as_str().unwrap_or("").to_string();
             match replay(&section, &body["case"]) {
                 Some(Ok(_)) => n += 1,
@@ -597,7 +704,10 @@ impl Run {
                         self.report_existing(&f, &v);
                     }
                 }
-                None => eprintln!("[{}] regression {}: unknown section {:?}", self.prop, name, section),
+                None => eprintln!(
+                    "[{}] regression {}: unknown section {:?}",
+                    self.prop, name, section
+                ),
             }
         }
         self.evaluations.fetch_add(n, Ordering::Relaxed);
@@ -608,7 +718,8 @@ impl Run {
     pub fn finish(&self) -> i32 {
         let wall = self.start.elapsed().as_secs_f64();
         let violations = self.violations.lock().unwrap().clone();
-        let nontrivial = self.nontrivial.lock().unwrap().len() as u64 + self.enum_nontrivial.load(Ordering::Relaxed);
+        let nontrivial = self.nontrivial.lock().unwrap().len() as u64
+            + self.enum_nontrivial.load(Ordering::Relaxed);
         let sections: Vec<Value> = self
             .sections
             .lock()
@@ -654,7 +765,14 @@ impl Run {
             let hit = self.known_hit.lock().unwrap().contains(&i);
             println!(
                 "KNOWN-FINDING: property={} signature={} {}{}",
-                self.prop, k.signature, k.text, if hit { "" } else { " (not reproduced in this run)" }
+                self.prop,
+                k.signature,
+                k.text,
+                if hit {
+                    ""
+                } else {
+                    " (not reproduced in this run)"
+                }
             );
         }
         if !violations.is_empty() {
@@ -668,7 +786,10 @@ impl Run {
         let inc = self.inconclusive.lock().unwrap();
         if !deg.is_empty() || !inc.is_empty() {
             for d in deg.iter() {
-                println!("INCONCLUSIVE property={} generator degenerate: {}", self.prop, d);
+                println!(
+                    "INCONCLUSIVE property={} generator degenerate: {}",
+                    self.prop, d
+                );
             }
             for d in inc.iter() {
                 println!("INCONCLUSIVE property={} {}", self.prop, d);
@@ -677,7 +798,12 @@ impl Run {
         }
         println!(
             "OK property={} tier={} seed={} evaluations={} distinct_nontrivial={} wall_s={:.1}",
-            self.prop, self.tier.name(), self.seed, self.evaluations.load(Ordering::Relaxed), nontrivial, wall
+            self.prop,
+            self.tier.name(),
+            self.seed,
+            self.evaluations.load(Ordering::Relaxed),
+            nontrivial,
+            wall
         );
         0
     }
@@ -737,16 +863,27 @@ impl Sampler {
         let mut cfg = Config::default();
         cfg.failure_persistence = None;
         cfg.rng_seed = RngSeed::Fixed(seed);
-        Sampler { runner: TestRunner::new(cfg) }
+        Sampler {
+            runner: TestRunner::new(cfg),
+        }
     }
     pub fn sample<C: Debug, S: Strategy<Value = C>>(&mut self, strat: &S) -> C {
         use proptest::strategy::ValueTree;
-        strat.new_tree(&mut self.runner).expect("strategy without rejection").current()
+        strat
+            .new_tree(&mut self.runner)
+            .expect("strategy without rejection")
+            .current()
     }
     /// sample one case and check it; on failure return the shrunk case and its violation
-    pub fn check<C: Debug, S: Strategy<Value = C>>(&mut self, strat: &S, check: &dyn Fn(&C) -> CheckResult) -> Result<(C, Pass), (C, Violation)> {
+    pub fn check<C: Debug, S: Strategy<Value = C>>(
+        &mut self,
+        strat: &S,
+        check: &dyn Fn(&C) -> CheckResult,
+    ) -> Result<(C, Pass), (C, Violation)> {
         use proptest::strategy::ValueTree;
-        let mut tree = strat.new_tree(&mut self.runner).expect("strategy without rejection");
+        let mut tree = strat
+            .new_tree(&mut self.runner)
+            .expect("strategy without rejection");
         let first = tree.current();
         match check(&first) {
             Ok(p) => Ok((first, p)),
